@@ -21,9 +21,8 @@ function (a parameter: theorems hold for every `H`).  Amounts are unbounded
 naturals (lnd: uint64 msat; sums of htlc amounts stay far below 2^64).  The
 expiry guards are modelled with their exact int32 → uint32 conversion.
 
-Outside the model (documented in checks/C15.notes.md): AMP invoices (an AMP
-*payload* towards a non-AMP invoice is modelled), the external
-htlc interceptor, invoice expiry (time / height based cancellation = `cancel`).
+Outside the model (documented in checks/C15.notes.md): hold AMP invoices, a circuit key reused
+under two set ids, the external htlc interceptor, invoice expiry (time / height based cancellation = `cancel`).
 -/
 namespace LndModel.C15
 
@@ -38,7 +37,7 @@ inductive FailReason
   | replayToCanceled | invoiceAlreadyCanceled | invoiceAlreadySettled | amountTooLow
   | expiryTooSoon | canceled | invoiceNotOpen | mppTimeout | addressMismatch
   | setTotalMismatch | setTotalTooLow | invoiceNotFound | keySendError | mppInProgress
-  | typeMismatch | ampError
+  | typeMismatch | ampError | ampReconstruction
   deriving DecidableEq, Repr
 
 inductive SettleKind | settled | replayToSettled | duplicateToSettled
@@ -105,6 +104,10 @@ structure Ctx where
   pathID : Option Nat
   total : Nat
   amp : Bool
+  /-- the AMP record (meaningful iff `amp`): set id, root share, child index -/
+  setID : Nat
+  share : Nat
+  index : Nat
   ks : Option (Option Nat)
   now : Nat
   deriving Repr
@@ -298,7 +301,7 @@ def inotify (H : Nat → Nat) (ctx : Ctx) (inv : Invoice) : Invoice × Res :=
       | some inv' => (inv', r)
 
 def FailReason.isSetFailure : FailReason → Bool
-  | .setTotalTooLow | .setTotalMismatch => true
+  | .setTotalTooLow | .setTotalMismatch | .ampReconstruction => true
   | _ => false
 
 /-- a fail resolution reports the recorded accept height when the htlc is on the invoice. -/
@@ -369,11 +372,202 @@ def itimeout (hold now : Nat) (inv : Invoice) : Invoice × List (Nat × Res) :=
           (fun h => if due hold now h then { h with state := .canceled } else h)) },
      (inv.htlcs.filter (due hold now)).map (fun h => (h.key, Res.fail .mppTimeout h.acceptHeight)))
 
+/-! ### AMP invoices
+
+An AMP invoice stays `open` (or becomes `canceled`); its htlcs are grouped into sets by set id,
+every update for an AMP htlc sees only the htlcs of that set (`UpdateInvoice(ref, setID)` fetches
+the sub-invoice).  `P descs share index` is the child preimage derived from the root seed that the
+shares of `descs` reconstruct (`amp.ReconstructChildren`: root = xor of all shares, preimage =
+SHA256(root ‖ share ‖ index)); it is a parameter like `H`, the child hash is `H` of it.
+Hold AMP invoices are not modelled (lnd: "not supported"). -/
+
+/-- `InvoiceHTLC` with `InvoiceHtlcAMPData`. -/
+structure AHtlc where
+  base : Htlc
+  setID : Nat
+  hash : Nat
+  share : Nat
+  index : Nat
+  pre : Option Nat
+  deriving DecidableEq, Repr
+
+/-- `InvoiceStateAMP` (state and amount of one set id). -/
+structure AmpSet where
+  id : Nat
+  state : HState
+  amtPaid : Nat
+  deriving DecidableEq, Repr
+
+structure AmpInv where
+  hash : Nat
+  state : CState
+  value : Nat
+  payAddr : Nat
+  finalCltv : Int
+  tlv : Bool
+  payAddrOpt : Bool
+  payAddrReq : Bool
+  mppOpt : Bool
+  blinded : Bool
+  htlcs : List AHtlc
+  sets : List AmpSet
+  amtPaid : Nat
+  deriving DecidableEq, Repr
+
+/-- `getUpdatedInvoiceAmpState(.., HtlcStateAccepted, amt)`: the entry is created in state
+    accepted if missing; an existing entry keeps its state. -/
+def setAccept (sets : List AmpSet) (id amt : Nat) : List AmpSet :=
+  if sets.any (fun s => s.id == id) then
+    sets.map (fun s => if s.id = id then { s with amtPaid := s.amtPaid + amt } else s)
+  else sets ++ [⟨id, .accepted, amt⟩]
+
+/-- `getUpdatedInvoiceAmpState(.., HtlcStateCanceled, amt)`. -/
+def setCancel (sets : List AmpSet) (id amt : Nat) : List AmpSet :=
+  sets.map (fun s => if s.id = id then { s with state := .canceled, amtPaid := s.amtPaid - amt } else s)
+
+/-- `getUpdatedInvoiceAmpState(.., HtlcStateSettled, 0)`. -/
+def setSettle (sets : List AmpSet) (id : Nat) : List AmpSet :=
+  sets.map (fun s => if s.id = id then { s with state := .settled } else s)
+
+def AHtlc.withState (h : AHtlc) (st : HState) : AHtlc := { h with base := { h.base with state := st } }
+
+/-- `cancelHtlcsAmp` bookkeeping for a list of htlcs that are being canceled. -/
+def cancelBook (sets : List AmpSet) (paid : Nat) (hs : List AHtlc) : List AmpSet × Nat :=
+  hs.foldl (fun (acc : List AmpSet × Nat) h =>
+    (setCancel acc.1 h.setID h.base.amt, if acc.2 ≠ 0 then acc.2 - h.base.amt else acc.2)) (sets, paid)
+
+/-- cancel every accepted htlc that satisfies `pred` (htlc state, set state/amount, AmtPaid). -/
+def cancelWhere (inv : AmpInv) (pred : AHtlc → Bool) : AmpInv :=
+  let tgt := inv.htlcs.filter (fun h => h.base.state == .accepted && pred h)
+  let b := cancelBook inv.sets inv.amtPaid tgt
+  let hs := inv.htlcs.map (fun h =>
+    if h.base.state == .accepted && pred h then h.withState .canceled else h)
+  { inv with htlcs := hs, sets := b.1, amtPaid := b.2 }
+
+/-- the htlcs an update with this ctx sees: those of the set id if there is an AMP record. -/
+def aview (ctx : Ctx) (inv : AmpInv) : List AHtlc :=
+  if ctx.amp then inv.htlcs.filter (fun h => h.setID == ctx.setID) else inv.htlcs
+
+/-- `resolveReplayedHtlc` on an AMP invoice. -/
+def areplay (H : Nat → Nat) (ctx : Ctx) (view : List AHtlc) : Option Res :=
+  match view.find? (fun h => h.base.key == ctx.key) with
+  | none => none
+  | some h =>
+    match h.base.state with
+    | .canceled => some (.fail .replayToCanceled h.base.acceptHeight)
+    | .accepted => some (.accept .replayToAccepted)
+    | .settled =>
+      match h.pre with
+      | none => some .err
+      | some p =>
+        if h.hash ≠ ctx.hash ∨ H p ≠ h.hash then some .err
+        else some (.settle .replayToSettled p ctx.height)
+
+/-- resolutions for the canceled htlcs of the view after a set failure. -/
+def afailMsgs (view : List AHtlc) (r : FailReason) : List (Nat × Res) :=
+  (view.filter (fun h => h.base.state == .canceled)).map
+    (fun h => (h.base.key, Res.fail r h.base.acceptHeight))
+
+/-- resolutions for the settled htlcs of the view after a settle: each with its own preimage. -/
+def asettleMsgs (view : List AHtlc) (k : SettleKind) (p : Nat) : List (Nat × Res) :=
+  (view.filter (fun h => h.base.state == .settled)).map
+    (fun h => (h.base.key, Res.settle k (h.pre.getD p) h.base.acceptHeight))
+
+def mkAHtlc (ctx : Ctx) (total : Nat) (auth : Bool) : AHtlc :=
+  { base := mkHtlc ctx total auth, setID := ctx.setID, hash := ctx.hash, share := ctx.share,
+    index := ctx.index, pre := none }
+
+/-- `reconstructAMPPreimages`: the child descriptors of the new htlc and of the accepted set. -/
+def adescs (ctx : Ctx) (acc : List AHtlc) : List (Nat × Nat) :=
+  (ctx.share, ctx.index) :: acc.map (fun h => (h.share, h.index))
+
+/-- the database part of NotifyExitHopHtlc on an AMP invoice (replay check, updateMpp with AMP
+    record incl. reconstruction, addHTLCs / cancelInvoice), with the resolutions to fan out. -/
+def anotify (H : Nat → Nat) (P : List (Nat × Nat) → Nat → Nat → Nat) (ctx : Ctx) (inv : AmpInv) :
+    AmpInv × Res × List (Nat × Res) :=
+  let view := aview ctx inv
+  match areplay H ctx view with
+  | some r =>
+    match r with
+    | .settle k p _ => (inv, r, if ctx.amp then asettleMsgs view k p else [])
+    | _ => (inv, r, [])
+  | none =>
+    if ctx.amp && ctx.mpp.isNone then (inv, .fail .ampError ctx.height, [])
+    else
+      match effMpp ctx with
+      | none => (inv, .fail .typeMismatch ctx.height, [])
+      | some (total, addr) =>
+        if !ctx.amp then (inv, .fail .typeMismatch ctx.height, [])
+        else if inv.state ≠ .open then (inv, .fail .invoiceNotOpen ctx.height, [])
+        else if addr ≠ inv.payAddr then (inv, .fail .addressMismatch ctx.height, [])
+        else if total = 0 ∨ total < inv.value then
+          (inv, .fail .setTotalTooLow ctx.height, afailMsgs view .setTotalTooLow)
+        else
+          let acc := view.filter (fun h => h.base.state == .accepted)
+          if acc.any (fun h => decide (h.base.mppTotal ≠ total)) then
+            (inv, .fail .setTotalMismatch ctx.height, afailMsgs view .setTotalMismatch)
+          else if expiryTooSoon ctx.expiry ctx.height ctx.rejectDelta then
+            (inv, .fail .expiryTooSoon ctx.height, [])
+          else if expiryTooSoon ctx.expiry ctx.height inv.finalCltv then
+            (inv, .fail .expiryTooSoon ctx.height, [])
+          else if ctx.setID = 0 then (inv, .fail .ampError ctx.height, [])
+          else if inv.htlcs.any (fun h => h.base.key == ctx.key) then
+            -- the circuit key is recorded under another set id: not modelled (never generated)
+            (inv, .err, [])
+          else
+            let h := mkAHtlc ctx total (decide (addr = inv.payAddr))
+            if sumAmt (acc.map (·.base)) + ctx.amt < total then
+              ({ inv with htlcs := inv.htlcs ++ [h], sets := setAccept inv.sets ctx.setID ctx.amt,
+                          amtPaid := inv.amtPaid + ctx.amt }, .accept .partialAccepted, [])
+            else
+              let descs := adescs ctx acc
+              let ok := decide (H (P descs ctx.share ctx.index) = ctx.hash) &&
+                acc.all (fun g => decide (H (P descs g.share g.index) = g.hash))
+              if !ok then
+                -- CancelInvoiceUpdate with the set id: the invoice and the htlcs of the view
+                if view.any (fun g => g.base.state == .settled) then (inv, .err, [])
+                else
+                  let inv' := cancelWhere inv (fun g => g.setID == ctx.setID)
+                  let inv' := { inv' with state := .canceled }
+                  (inv', .fail .ampReconstruction ctx.height,
+                    afailMsgs (aview ctx inv') .ampReconstruction)
+              else
+                let settleOne := fun (g : AHtlc) =>
+                  if g.setID == ctx.setID && g.base.state == .accepted then
+                    { g.withState .settled with pre := some (P descs g.share g.index) }
+                  else g
+                let inv' : AmpInv :=
+                  { inv with htlcs := ((inv.htlcs ++ [h]).map settleOne),
+                             sets := setSettle (setAccept inv.sets ctx.setID ctx.amt) ctx.setID,
+                             amtPaid := inv.amtPaid + ctx.amt }
+                let p := P descs ctx.share ctx.index
+                (inv', .settle .settled p ctx.height, asettleMsgs (aview ctx inv') .settled p)
+
+/-- `CancelInvoice` on an AMP invoice (all sets are fetched). -/
+def acancel (inv : AmpInv) : AmpInv × OpRes × List (Nat × Res) :=
+  match inv.state with
+  | .canceled => (inv, .ok, [])
+  | .open =>
+    if inv.htlcs.any (fun h => h.base.state == .settled) then (inv, .err, [])
+    else
+      let inv' := { cancelWhere inv (fun _ => true) with state := .canceled }
+      (inv', .ok, inv'.htlcs.map (fun h => (h.base.key, Res.fail .canceled h.base.acceptHeight)))
+  | _ => (inv, .err, [])
+
+/-- hold timers of an AMP invoice (`cancelSingleHtlc` with the set-id ref). -/
+def atimeout (hold now : Nat) (inv : AmpInv) : AmpInv × List (Nat × Res) :=
+  if inv.state ≠ .open then (inv, [])
+  else
+    (cancelWhere inv (fun h => due hold now h.base),
+     (inv.htlcs.filter (fun h => due hold now h.base)).map
+       (fun h => (h.base.key, Res.fail .mppTimeout h.base.acceptHeight)))
+
 /-! ### registry -/
 
 structure Cfg where
   rejectDelta : Int
   acceptKeysend : Bool
+  acceptAMP : Bool
   ksHold : Bool
   hold : Nat
   /-- native SQL store (`getInvoiceByRef`) instead of the kv store (`fetchInvoiceNumByRef`) -/
@@ -382,6 +576,7 @@ structure Cfg where
 
 structure Reg where
   invs : List Invoice
+  amps : List AmpInv
   /-- circuit keys with a hodl subscription -/
   subs : List Nat
   now : Nat
@@ -389,26 +584,36 @@ structure Reg where
 
 def findHash (invs : List Invoice) (h : Nat) : Option Invoice := invs.find? (fun i => i.hash == h)
 
-def findAddr (invs : List Invoice) (a : Nat) : Option Invoice :=
-  if a = 0 then none else invs.find? (fun i => i.payAddr == a)
+def findAmp (amps : List AmpInv) (h : Nat) : Option AmpInv := amps.find? (fun i => i.hash == h)
+
+/-- (payment hash, payment address) of every invoice: the hash index and the address index. -/
+def Reg.keys (reg : Reg) : List (Nat × Nat) :=
+  reg.invs.map (fun i => (i.hash, i.payAddr)) ++ reg.amps.map (fun i => (i.hash, i.payAddr))
+
+def kHash (ks : List (Nat × Nat)) (h : Nat) : Option (Nat × Nat) := ks.find? (fun k => k.1 == h)
+
+/-- the blank payment address is not indexed. -/
+def kAddr (ks : List (Nat × Nat)) (a : Nat) : Option (Nat × Nat) :=
+  if a = 0 then none else ks.find? (fun k => k.2 == a)
 
 /-- invoice lookup by `ctx.invoiceRef()`: by hash (legacy, or AMP record without MPP record), by
-    payment address only (AMP + MPP records), or by hash and payment address (MPP). -/
-def lookup (cfg : Cfg) (invs : List Invoice) (hash : Nat) (mpp : Option (Nat × Nat)) (amp : Bool) :
-    Option Invoice :=
+    payment address only (AMP + MPP records), or by hash and payment address (MPP / blinded).
+    Returns the payment hash of the invoice found. -/
+def lookup (cfg : Cfg) (ks : List (Nat × Nat)) (hash : Nat) (mpp : Option (Nat × Nat)) (amp : Bool) :
+    Option Nat :=
   match mpp with
-  | none => findHash invs hash
+  | none => (kHash ks hash).map (·.1)
   | some (_, a) =>
-    if amp then findAddr invs a
+    if amp then (kAddr ks a).map (·.1)
     else if cfg.sql then
-      match findHash invs hash with
+      match kHash ks hash with
       | none => none
-      | some i => if a ≠ 0 ∧ i.payAddr ≠ a then none else some i
+      | some i => if a ≠ 0 ∧ i.2 ≠ a then none else some i.1
     else
-      match findAddr invs a, findHash invs hash with
-      | some x, some y => if x.hash = y.hash then some x else none
+      match kAddr ks a, kHash ks hash with
+      | some x, some y => if x.1 = y.1 then some x.1 else none
       | some _, none => none
-      | none, y => y
+      | none, y => y.map (·.1)
 
 /-- the address part of `ctx.invoiceRef()`: the path ID has priority over the MPP record. -/
 def refAddr (ctx : Ctx) : Option (Nat × Nat) :=
@@ -418,6 +623,9 @@ def refAddr (ctx : Ctx) : Option (Nat × Nat) :=
 
 def setInv (invs : List Invoice) (inv : Invoice) : List Invoice :=
   invs.map (fun i => if i.hash = inv.hash then inv else i)
+
+def setAmp (amps : List AmpInv) (inv : AmpInv) : List AmpInv :=
+  amps.map (fun i => if i.hash = inv.hash then inv else i)
 
 /-- `notifyHodlSubscribers` for a list of resolutions: delivered iff subscribed; delivery
     removes the subscription. -/
@@ -445,10 +653,17 @@ def InvSpec.toInvoice (s : InvSpec) : Invoice :=
     mppOpt := s.mppOpt, ampReq := s.ampReq, blinded := s.blinded, hodl := s.hodl, htlcs := [],
     amtPaid := 0 }
 
+/-- an AMP invoice (`ampReq`); preimage and hold flag are not represented (see above). -/
+def InvSpec.toAmp (s : InvSpec) : AmpInv :=
+  { hash := s.hash, state := .open, value := s.value, payAddr := s.payAddr,
+    finalCltv := s.finalCltv, tlv := s.tlv, payAddrOpt := s.payAddrOpt, payAddrReq := s.payAddrReq,
+    mppOpt := s.mppOpt, blinded := s.blinded, htlcs := [], sets := [], amtPaid := 0 }
+
 /-- `AddInvoice`: duplicate payment hash / duplicate (non-blank) payment address are refused. -/
 def addInvoice (reg : Reg) (s : InvSpec) : Option Reg :=
-  if (findHash reg.invs s.hash).isSome then none
-  else if (findAddr reg.invs s.payAddr).isSome then none
+  if (kHash reg.keys s.hash).isSome then none
+  else if (kAddr reg.keys s.payAddr).isSome then none
+  else if s.ampReq then some { reg with amps := reg.amps ++ [s.toAmp] }
   else some { reg with invs := reg.invs ++ [s.toInvoice] }
 
 /-- `processKeySend`: `none` = error (→ ResultKeySendError). -/
@@ -468,6 +683,21 @@ def processKeySend (H : Nat → Nat) (cfg : Cfg) (reg : Reg) (ctx : Ctx) : Optio
       | some reg' => some reg'
       | none => some reg     -- ErrDuplicateInvoice is ignored
 
+/-- `processAMP`: just-in-time AMP invoice for the payment address of the MPP record;
+    `none` = error (→ ResultAmpError). -/
+def processAMP (cfg : Cfg) (reg : Reg) (ctx : Ctx) : Option Reg :=
+  match ctx.mpp with
+  | none => none
+  | some (total, addr) =>
+    if expiryTooSoon ctx.expiry ctx.height cfg.rejectDelta then none
+    else
+      match addInvoice reg
+        { hash := ctx.hash, value := total, payAddr := addr, preimage := none,
+          finalCltv := cfg.rejectDelta, tlv := true, payAddrOpt := true, payAddrReq := false,
+          mppOpt := false, ampReq := true, blinded := false, hodl := false } with
+      | some reg' => some reg'
+      | none => some reg     -- ErrDuplicateInvoice / ErrDuplicatePayAddr are ignored
+
 inductive Reply
   | res (r : Res)
   | op (o : OpRes)
@@ -479,48 +709,90 @@ structure Out where
   msgs : List (Nat × Res)
   deriving Repr
 
-/-- `NotifyExitHopHtlc` (AcceptAMP off or no AMP record ⇒ the keysend branch is considered). -/
-def notify (H : Nat → Nat) (cfg : Cfg) (reg : Reg) (ctx : Ctx) : Reg × Out :=
-  let pre : Option Reg :=
-    if cfg.acceptKeysend && !ctx.amp then processKeySend H cfg reg ctx else some reg
-  match pre with
-  | none => (reg, ⟨.res (.fail .keySendError ctx.height), []⟩)
-  | some reg =>
-    match lookup cfg reg.invs ctx.hash (refAddr ctx) (ctx.amp && ctx.pathID.isNone) with
+/-- spontaneous-payment pre-processing of `NotifyExitHopHtlc` (runs before the registry lock);
+    the error is the fail reason. -/
+def preprocess (H : Nat → Nat) (cfg : Cfg) (reg : Reg) (ctx : Ctx) : Except FailReason Reg :=
+  if cfg.acceptAMP && ctx.amp then
+    match processAMP cfg reg ctx with
+    | some r => .ok r
+    | none => .error .ampError
+  else if cfg.acceptKeysend && !ctx.amp then
+    match processKeySend H cfg reg ctx with
+    | some r => .ok r
+    | none => .error .keySendError
+  else .ok reg
+
+def subscribe (subs : List Nat) (key : Nat) (r : Res) : List Nat :=
+  match r with
+  | .accept _ => if subs.contains key then subs else subs ++ [key]
+  | _ => subs
+
+/-- `NotifyExitHopHtlc`. -/
+def notify (H : Nat → Nat) (P : List (Nat × Nat) → Nat → Nat → Nat) (cfg : Cfg) (reg : Reg)
+    (ctx : Ctx) : Reg × Out :=
+  match preprocess H cfg reg ctx with
+  | .error e => (reg, ⟨.res (.fail e ctx.height), []⟩)
+  | .ok reg =>
+    match lookup cfg reg.keys ctx.hash (refAddr ctx) (ctx.amp && ctx.pathID.isNone) with
     | none => (reg, ⟨.res (.fail .invoiceNotFound ctx.height), []⟩)
-    | some inv =>
-      let (inv', r) := inotify H ctx inv
-      let r := fixHeight inv' ctx.key r
-      let (subs, delivered) := deliver reg.subs (notifyMsgs inv' r)
-      let subs :=
-        match r with
-        | .accept _ => if subs.contains ctx.key then subs else subs ++ [ctx.key]
-        | _ => subs
-      ({ reg with invs := setInv reg.invs inv', subs := subs }, ⟨.res r, delivered⟩)
+    | some h =>
+      match findHash reg.invs h with
+      | some inv =>
+        let (inv', r) := inotify H ctx inv
+        let r := fixHeight inv' ctx.key r
+        let (subs, delivered) := deliver reg.subs (notifyMsgs inv' r)
+        ({ reg with invs := setInv reg.invs inv', subs := subscribe subs ctx.key r },
+          ⟨.res r, delivered⟩)
+      | none =>
+        match findAmp reg.amps h with
+        | none => (reg, ⟨.res (.fail .invoiceNotFound ctx.height), []⟩)
+        | some a =>
+          let (a', r, msgs) := anotify H P ctx a
+          -- the set-id index is global: adding an htlc under a set id that another invoice
+          -- already uses fails with ErrDuplicateSetID (→ ResultInvoiceNotFound, rolled back)
+          if a'.htlcs.length ≠ a.htlcs.length ∧
+              reg.amps.any (fun b => b.hash != a.hash && b.sets.any (fun x => x.id == ctx.setID)) then
+            (reg, ⟨.res (.fail .invoiceNotFound ctx.height), []⟩)
+          else
+          let (subs, delivered) := deliver reg.subs msgs
+          ({ reg with amps := setAmp reg.amps a', subs := subscribe subs ctx.key r },
+            ⟨.res r, delivered⟩)
 
 def settleHodl (H : Nat → Nat) (reg : Reg) (p : Nat) : Reg × Out :=
   match findHash reg.invs (H p) with
-  | none => (reg, ⟨.op .notFound, []⟩)
   | some inv =>
     let (inv', o, msgs) := isettle H p inv
     let (subs, delivered) := deliver reg.subs msgs
     ({ reg with invs := setInv reg.invs inv', subs := subs }, ⟨.op o, delivered⟩)
+  | none =>
+    match findAmp reg.amps (H p) with
+    | none => (reg, ⟨.op .notFound, []⟩)
+    | some a =>
+      -- an AMP invoice is never in state accepted
+      (reg, ⟨.op (if a.state = .canceled then .alreadyCanceled else .stillOpen), []⟩)
 
 def cancel (reg : Reg) (hash : Nat) : Reg × Out :=
   match findHash reg.invs hash with
-  | none => (reg, ⟨.op .notFound, []⟩)
   | some inv =>
     let (inv', o, msgs) := icancel inv
     let (subs, delivered) := deliver reg.subs msgs
     ({ reg with invs := setInv reg.invs inv', subs := subs }, ⟨.op o, delivered⟩)
+  | none =>
+    match findAmp reg.amps hash with
+    | none => (reg, ⟨.op .notFound, []⟩)
+    | some a =>
+      let (a', o, msgs) := acancel a
+      let (subs, delivered) := deliver reg.subs msgs
+      ({ reg with amps := setAmp reg.amps a', subs := subs }, ⟨.op o, delivered⟩)
 
 /-- the clock advances by `dt` seconds; every due hold timer fires. -/
 def tick (cfg : Cfg) (reg : Reg) (dt : Nat) : Reg × Out :=
   let now := reg.now + dt
   let rs := reg.invs.map (itimeout cfg.hold now)
-  let msgs := (rs.map (·.2)).flatten
+  let as := reg.amps.map (atimeout cfg.hold now)
+  let msgs := (rs.map (·.2)).flatten ++ (as.map (·.2)).flatten
   let (subs, delivered) := deliver reg.subs msgs
-  ({ invs := rs.map (·.1), subs := subs, now := now }, ⟨.unit, delivered⟩)
+  ({ invs := rs.map (·.1), amps := as.map (·.1), subs := subs, now := now }, ⟨.unit, delivered⟩)
 
 inductive Event
   | addInvoice (s : InvSpec)
@@ -531,20 +803,22 @@ inductive Event
   deriving Repr
 
 /-- the harness supplies `now` and `rejectDelta` of the ctx from the registry. -/
-def step (H : Nat → Nat) (cfg : Cfg) (reg : Reg) : Event → Reg × Out
+def step (H : Nat → Nat) (P : List (Nat × Nat) → Nat → Nat → Nat) (cfg : Cfg) (reg : Reg) :
+    Event → Reg × Out
   | .addInvoice s =>
     match addInvoice reg s with
     | some reg' => (reg', ⟨.op .ok, []⟩)
     | none => (reg, ⟨.op .err, []⟩)
-  | .notify ctx => notify H cfg reg { ctx with now := reg.now, rejectDelta := cfg.rejectDelta }
+  | .notify ctx => notify H P cfg reg { ctx with now := reg.now, rejectDelta := cfg.rejectDelta }
   | .settle p => settleHodl H reg p
   | .cancel h => cancel reg h
   | .tick dt => tick cfg reg dt
 
-def run (H : Nat → Nat) (cfg : Cfg) (reg : Reg) : List Event → Reg
+def run (H : Nat → Nat) (P : List (Nat × Nat) → Nat → Nat → Nat) (cfg : Cfg) (reg : Reg) :
+    List Event → Reg
   | [] => reg
-  | e :: es => run H cfg (step H cfg reg e).1 es
+  | e :: es => run H P cfg (step H P cfg reg e).1 es
 
-def Reg.empty : Reg := { invs := [], subs := [], now := 0 }
+def Reg.empty : Reg := { invs := [], amps := [], subs := [], now := 0 }
 
 end LndModel.C15
